@@ -461,6 +461,12 @@ func c07drainedMarks(c *Ctx, sr *schedRoles) {
 					continue
 				}
 				val := p.Sym(mu.Value)
+				// (the record may be built by a pure constructor: common.NewInput(channel))
+				if val.Op == "call" {
+					if x := p.SymX(mu.Value); x != nil && x.Op == "struct" {
+						val = x
+					}
+				}
 				if val.Op != "struct" {
 					continue
 				}
